@@ -12,6 +12,7 @@ def run(ctx):
         ctx.run_space(b, "paths", ["carrier=%d" % c, "maxlen=%d" % (ml - 1 if c in (5, 6, 8) else ml)], cpu_limit=60)
     # every one of the 256 OS type bytes (some have rules of their own for names), strings up to 3 (thorough 4) bytes
     ctx.run_space(b, "paths", ["allos=1", "maxlen=%d" % (4 if ctx.thorough else 3)], cpu_limit=120)
+    ctx.run_space(b, "paths", ["allos=1", "controls=1", "maxlen=%d" % (4 if ctx.thorough else 3)], cpu_limit=120)
     ctx.run_space(b, "longpaths", cpu_limit=120)
     # "every header the library returns": also the ones it returns when an allocation inside the header read has failed
     hb = build.ensure_explorer("hist_explore", "asan", extra_ld=WRAP)
@@ -19,6 +20,6 @@ def run(ctx):
     ctx.assumptions += ["ref/ref_header.c normalise/path filter, bound to the 183 recorded header dumps of the corpus by ./check selftest"]
     return ctx.finish(
         rule="every byte string up to the length over {'.','/','\\\\',0xFF,NUL,'a'} (link carriers add '|') placed in 12 carriers (the last three supply the name or the path twice, a longer harmless one first): level-0/1 in-header name, 0x02 path alone, 0x01 name alone, directory path, "
-             "level-1 name x 0x02 path pairs and level-2 path x name pairs at every split point, link name and link path x name pairs; each under a case-folding and a non-folding OS type; all 12 carriers again under each of the 256 OS type bytes with strings up to 3 (4) bytes. "
+             "level-1 name x 0x02 path pairs and level-2 path x name pairs at every split point, link name and link path x name pairs; each under a case-folding and a non-folding OS type; all 12 carriers again under each of the 256 OS type bytes with strings up to 3 (4) bytes, and once more over the alphabet {0x0E, 0x0F, '\\', 'A', 0x1F, 'Z'} (control bytes that are '.', '/' minus 0x20, next to letters that case folding touches). "
              "'longpaths': level-3 path and name headers of 255..65537 and 200000 bytes with a forbidden component ('..', '.', empty, '...', '..a', 'a..', './..') at the start, before offset 255, before 65535, in the middle and at the end. Oracle: the invariant on every returned (path, filename) and exact agreement with the reference normalisation/filter.  non-trivial = distinct (carrier, OS, bytes, split) with length > 1",
         replay_fn=lambda rep: runner.replay_explorer(rep, quiet=True))
